@@ -9,7 +9,7 @@ EXTENDS Blocks, OpenAPI, Json
 
 CONSTANTS MaxBlocks, Prelude
 PreludeNone == <<>>
-PreludeDeps == <<"tag1", "tag2", "t1", "e1", "mac">>
+PreludeDeps == <<"tag1", "tag2", "t1", "t2", "t5", "e1", "mac">>
 VARIABLES bs, pre
 vars == <<bs, pre>>
 Init == bs = <<>> /\ pre \in (IF Prelude = <<>> THEN {"none"} ELSE {"none", "before", "after"})
